@@ -42,7 +42,15 @@ def run(ctx, ck) -> None:
     registered = [c for c in lands if any(d in REGISTER for d in c.decorators)]
     ck.floor('J1', len(registered), 4, 'hand-registered pytree classes')
     for c in lands:
-        abstract = any(isinstance(n, ast.FunctionDef) and any(world.qualify(c.module, d) == 'abc.abstractmethod' for d in n.decorator_list) for n in c.node.body)
+        def is_abstract_def(n) -> bool:
+            return isinstance(n, ast.FunctionDef) and any(world.qualify(module_of(n), d) in ('abc.abstractmethod', 'abstractmethod') for d in n.decorator_list)
+
+        declared = {n.name for k in (c.mro or [c]) for n in k.node.body if is_abstract_def(n)}
+        abstract = any((r := table.resolve(c, name)) is not None and is_abstract_def(r.node) for name in declared)
+        if abstract and c not in registered:
+            # cannot be instantiated: there is no instance to flatten (registration is per concrete class)
+            ck.ok('J1', c.node, f'{c.name} is abstract (unimplemented abstract methods): no instance exists to be flattened', instance=f'{c.name} registered', nontrivial=False)
+            continue
         ck.expect('J1', c in registered, c.node, 'registered as a pytree node class', f'{c.name} is a landscape subclass without @register_pytree_node_class: flattening it yields the instance itself as a leaf', instance=f'{c.name} registered', nontrivial=False)
     for c in registered:
         tf = table.resolve(c, 'tree_flatten')
@@ -77,7 +85,7 @@ def run(ctx, ck) -> None:
             ck.incomplete('J1', tu.node, f'tree_unflatten is {show(ut)}, not cls(**aux_data)', instance=f'{c.name} reader')
             continue
         # writer
-        keys = _aux_keys(tf.node)
+        keys = _aux_keys(tf.node, table, c)
         if keys is None:
             ck.incomplete('J1', tf.node, 'tree_flatten does not return ((), <dict literal>)', instance=f'{c.name} writer')
             continue
@@ -100,7 +108,7 @@ def run(ctx, ck) -> None:
         for k in keys:
             an = ann.get(k)
             if an is not None and ARRAY_ANN.search(ast.unparse(an)):
-                ck.bad('J1', where, f'{c.name} keeps `{k}` ({ast.unparse(an)}) in the static aux_data of its pytree: static data must be hashable and comparable, '
+                ck.bad('J1', c.node, f'{c.name} keeps `{k}` ({ast.unparse(an)}) in the static aux_data of its pytree: static data must be hashable and comparable, '
                        'an array is neither (treedef comparison is ambiguous / jit with such a landscape as static or cached argument fails)', instance=f'{c.name} static aux {k} is an array')
         # every attribute assigned by the constructor chain that the class reads back is reproduced: attrs set in __init__ chain
         ck.ok('J1', where, f'{c.name}: writer/reader agreement over keys {sorted(keys)}', instance=f'{c.name} summary', nontrivial=False)
@@ -343,10 +351,33 @@ def _single(fn: ast.FunctionDef):
     return term(rets[0].node.value, path_env(rets[0]))
 
 
-def _aux_keys(fn: ast.FunctionDef):
+def _aux_keys(fn: ast.FunctionDef, table=None, cls=None):
     rets = [p for p in function_paths(fn) if p.exit == 'return']
     if len(rets) != 1:
         return None
+    # table-driven form: {name: getattr(self, name) for name in self.<class attribute naming a tuple of strings>}
+    rv = rets[0].node.value
+    if isinstance(rv, ast.Tuple) and len(rv.elts) == 2 and isinstance(rv.elts[0], ast.Tuple) and not rv.elts[0].elts and table is not None and cls is not None and fn.args.args:
+        d = rv.elts[1]
+        if isinstance(d, ast.Name):
+            binds = [st for st in rets[0].stmts() if isinstance(st, (ast.Assign, ast.AnnAssign)) and any(isinstance(t, ast.Name) and t.id == d.id for t in (st.targets if isinstance(st, ast.Assign) else [st.target]))]
+            d = binds[-1].value if binds else d
+        me = fn.args.args[0].arg
+        if (isinstance(d, ast.DictComp) and len(d.generators) == 1 and not d.generators[0].ifs and isinstance(d.generators[0].target, ast.Name)
+                and isinstance(d.key, ast.Name) and d.key.id == d.generators[0].target.id):
+            var = d.generators[0].target.id
+            it = d.generators[0].iter
+            val_ok = (isinstance(d.value, ast.Call) and isinstance(d.value.func, ast.Name) and d.value.func.id == 'getattr' and len(d.value.args) == 2
+                      and isinstance(d.value.args[0], ast.Name) and d.value.args[0].id == me and isinstance(d.value.args[1], ast.Name) and d.value.args[1].id == var)
+            if val_ok and isinstance(it, ast.Attribute) and isinstance(it.value, ast.Name) and it.value.id == me:
+                value, _owner = table.class_attr(cls, it.attr)
+                if isinstance(value, (ast.Tuple, ast.List)) and all(isinstance(x, ast.Constant) and isinstance(x.value, str) for x in value.elts):
+                    return {x.value: ('attr', ('var', me), x.value) for x in value.elts}
+        return None if isinstance(d, ast.DictComp) else _aux_keys_literal(rets)
+    return _aux_keys_literal(rets)
+
+
+def _aux_keys_literal(rets):
     t = term(rets[0].node.value, path_env(rets[0]))
     if t[0] != 'tuple' or len(t) != 3 or t[1] != ('tuple',):
         return None
